@@ -671,7 +671,7 @@ theorem restart_pinv {s s' : St} {jobs : List Job} (hm : MidInv s jobs) {workers
       s'.seed = s.seed ∧ s'.entropy = s.seed ∧ s'.spawned = s.spawned ∧ s'.cstep = s.cstep ∧
       s'.mainDraws = 0 ∧ s'.restarted = true ∧ s'.rgenRestored = false := by
   have hc := hm.core
-  obtain ⟨r1, r2, r3, r4, r5, r6, r7, r8⟩ := restore_continues hm.count h
+  obtain ⟨r1, r2, r3, r4, r5, r6, r7, r8⟩ := restore_continues h
   obtain ⟨_, _, _, _, _, _, t7, _, t9, t10⟩ := restore_spec h
   have hl0 : s'.locked0 = jobs.map jobRec0 := by
     rw [t7]
